@@ -2,6 +2,7 @@ package main
 
 import (
 	"fmt"
+	"strings"
 
 	btpb "cloud.google.com/go/bigtable/apiv2/bigtablepb"
 	"google.golang.org/grpc/codes"
@@ -18,7 +19,7 @@ func init() {
 		Assume: []string{"row-sample filters are not used in predicates (the metamorphic read would draw differently)", "error codes are not compared"},
 		Run:    runC12,
 	})
-	expectedProbes["C12"] = []string{"c12.matched_true", "c12.matched_false", "c12.no_predicate", "c12.pred_strips_all", "c12.invalid_predicate", "c12.invalid_selected_branch", "c12.invalid_unselected_branch", "c12.absent_row"}
+	expectedProbes["C12"] = []string{"c12.matched_true", "c12.matched_false", "c12.no_predicate", "c12.pred_strips_all", "c12.invalid_predicate", "c12.invalid_selected_branch", "c12.invalid_unselected_branch", "c12.absent_row", "c12.version_sensitive_predicate"}
 }
 
 func runC12(r *Run) {
@@ -78,6 +79,12 @@ func runC12(r *Run) {
 			}
 			fg := &filterGen{rows: base, fams: []string{"f1", "f2"}, maxDepth: 2, invalid: true, sample: false}
 			pred = fg.tree(d, 0, true)
+			if obs != nil && d.n(5) == 4 {
+				if vp := c12VersionPredicate(d, obs); vp != nil {
+					pred = vp
+					r.Probe("c12.version_sensitive_predicate")
+				}
+			}
 		} else {
 			r.Probe("c12.no_predicate")
 		}
@@ -169,4 +176,57 @@ func c12RootInvalid(f *btpb.RowFilter) bool {
 	e := &fEval{}
 	e.eval(f, "k", []OCell{{Fam: "f1", Qual: "q", Ts: 1000, Val: "v"}})
 	return e.required
+}
+
+// c12VersionPredicate: "the newest version(s) of a column equal v" and its relatives - a
+// count-sensitive filter in front of (or behind) a selective one, aimed at a column that holds
+// several versions, with the selective filter matching an OLDER version only (or the newest only).
+// Compare-and-swap on the newest value is what such predicates are used for.
+func c12VersionPredicate(d *draws, obs *ORow) *btpb.RowFilter {
+	type col struct{ fam, qual string }
+	byCol := map[col][]OCell{}
+	var order []col
+	for _, c := range obs.Cells {
+		k := col{c.Fam, c.Qual}
+		if _, ok := byCol[k]; !ok {
+			order = append(order, k)
+		}
+		byCol[k] = append(byCol[k], c)
+	}
+	var multi []col
+	for _, k := range order {
+		if len(byCol[k]) >= 2 {
+			multi = append(multi, k)
+		}
+	}
+	if len(multi) == 0 {
+		return nil
+	}
+	cells := byCol[multi[d.n(len(multi))]]
+	target := cells[d.n(len(cells))] // cells[0] is the newest version
+	var sel *btpb.RowFilter
+	if d.n(2) == 0 && !strings.ContainsAny(target.Val, "\\.+*?()|[]{}^$\n") && len(target.Val) < 64 {
+		sel = &btpb.RowFilter{Filter: &btpb.RowFilter_ValueRangeFilter{ValueRangeFilter: &btpb.ValueRange{StartValue: &btpb.ValueRange_StartValueClosed{StartValueClosed: []byte(target.Val)}, EndValue: &btpb.ValueRange_EndValueClosed{EndValueClosed: []byte(target.Val)}}}}
+	} else {
+		sel = &btpb.RowFilter{Filter: &btpb.RowFilter_TimestampRangeFilter{TimestampRangeFilter: &btpb.TimestampRange{StartTimestampMicros: target.Ts, EndTimestampMicros: target.Ts + 1000}}}
+	}
+	lim := &btpb.RowFilter{Filter: &btpb.RowFilter_CellsPerColumnLimitFilter{CellsPerColumnLimitFilter: int32(1 + d.n(2))}}
+	switch d.n(4) {
+	case 0:
+		lim = &btpb.RowFilter{Filter: &btpb.RowFilter_CellsPerRowLimitFilter{CellsPerRowLimitFilter: int32(1 + d.n(3))}}
+	case 1:
+		lim = &btpb.RowFilter{Filter: &btpb.RowFilter_CellsPerRowOffsetFilter{CellsPerRowOffsetFilter: int32(1 + d.n(3))}}
+	}
+	fs := []*btpb.RowFilter{lim, sel}
+	if d.n(4) == 3 {
+		fs = []*btpb.RowFilter{sel, lim}
+	}
+	if d.n(3) == 2 {
+		lit := &rx{kind: rxCat}
+		for k := 0; k < len(target.Fam); k++ {
+			lit.subs = append(lit.subs, &rx{kind: rxLit, b: target.Fam[k]})
+		}
+		fs = append([]*btpb.RowFilter{{Filter: &btpb.RowFilter_FamilyNameRegexFilter{FamilyNameRegexFilter: string(registerRx(lit))}}}, fs...)
+	}
+	return &btpb.RowFilter{Filter: &btpb.RowFilter_Chain_{Chain: &btpb.RowFilter_Chain{Filters: fs}}}
 }
